@@ -230,52 +230,8 @@ func c03R2(c *Ctx) {
 		}, isAdv, nil)
 		c.check(hit == nil, spec.fn+"/always-advance", c.ipos(nb[0]), "the cursor is advanced on every path between two fetches", "a path reaches the next fetch (or a successful return) without advancing the cursor: the same bytes are read twice", c.pathStr(path)...)
 	}
-	// junk-tolerant continuation: a loop-back after the newline was found must be decided on the
-	// accumulator's last byte (the CR may have arrived in an earlier chunk), under mayHasJunk
+	readLineContinuation(c)
 	rl := c.fn("trzszBuffer.readLine")
-	rlnb := callsIn(rl, idIs("(*trzsz.trzszBuffer).nextBuffer"))
-	if len(rlnb) != 1 {
-		c.lost("nextBuffer call in readLine")
-	}
-	header := rlnb[0].Block()
-	nBack := 0
-	for _, p := range header.Preds {
-		if !header.Dominates(p) {
-			continue // loop entry
-		}
-		fs := append(factsAt(p), edgeFactsTo(p, header)...)
-		found := factCmp(fs, token.GEQ, func(v ssa.Value) bool {
-			ic, _ := callOf(v)
-			return ic != nil && calleeID(&ic.Call) == "bytes.IndexByte" && isConstIntV('\n')(ic.Call.Args[1])
-		}, isConstIntV(0))
-		if !found {
-			continue // no newline in this chunk: plain continuation
-		}
-		nBack++
-		onAcc := false
-		for _, fc := range fs {
-			op, x, y, ok := cmpFact(fc)
-			if !ok || op != token.EQL || !isConstIntV('\r')(y) {
-				continue
-			}
-			if u, ok := x.(*ssa.UnOp); ok {
-				if ia, ok := u.X.(*ssa.IndexAddr); ok {
-					if bc, _ := callOf(ia.X); bc != nil && calleeID(&bc.Call) == "(*bytes.Buffer).Bytes" {
-						onAcc = true
-					}
-				}
-			}
-		}
-		junk := false
-		for _, fc := range fs {
-			if fc.Pol && isVar("mayHasJunk")(fc.V) {
-				junk = true
-			}
-		}
-		c.check(onAcc && junk, "readLine/continue-after-newline", c.pos(p.Instrs[len(p.Instrs)-1].Pos()), "after a newline the reader keeps reading only when the accumulated line ends in CR (junk-tolerant mode)",
-			"the wrapped-line decision is not taken on the accumulated line's last byte: a CR|LF split across two reads ends the line early (or a strict line is continued)")
-	}
-	c.check(nBack >= 1, "readLine/has-wrapped-line-continuation", c.pos(rl.Pos()), "junk-tolerant mode can continue after a newline", "the reader never continues after a newline: wrapped lines are cut")
 	// sized read: fast paths must not bypass the accumulator: every successful return returns the accumulator's bytes
 	rb := c.fn("trzszBuffer.readBinary")
 	for _, name := range []*ssa.Function{rb, rl, c.fn("trzszBuffer.readLineOnWindows")} {
@@ -444,4 +400,55 @@ func c03R4(c *Ctx) {
 	for _, ci := range callsIn(ar, idIs("(*trzsz.trzszBuffer).addBuffer")) {
 		c.check(isVar("buf")(ci.Common().Args[1]), "addReceivedData/queues-its-argument", c.ipos(ci), "the received slice itself is queued", "addReceivedData queues something other than the slice it was given")
 	}
+}
+
+// readLineContinuation: the junk-tolerant reader continues after a newline only when the accumulated line
+// ends in CR (shared by C03-R2 and C16-R4).
+func readLineContinuation(c *Ctx) {
+	// junk-tolerant continuation: a loop-back after the newline was found must be decided on the
+	// accumulator's last byte (the CR may have arrived in an earlier chunk), under mayHasJunk
+	rl := c.fn("trzszBuffer.readLine")
+	rlnb := callsIn(rl, idIs("(*trzsz.trzszBuffer).nextBuffer"))
+	if len(rlnb) != 1 {
+		c.lost("nextBuffer call in readLine")
+	}
+	header := rlnb[0].Block()
+	nBack := 0
+	for _, p := range header.Preds {
+		if !header.Dominates(p) {
+			continue // loop entry
+		}
+		fs := append(factsAt(p), edgeFactsTo(p, header)...)
+		found := factCmp(fs, token.GEQ, func(v ssa.Value) bool {
+			ic, _ := callOf(v)
+			return ic != nil && calleeID(&ic.Call) == "bytes.IndexByte" && isConstIntV('\n')(ic.Call.Args[1])
+		}, isConstIntV(0))
+		if !found {
+			continue // no newline in this chunk: plain continuation
+		}
+		nBack++
+		onAcc := false
+		for _, fc := range fs {
+			op, x, y, ok := cmpFact(fc)
+			if !ok || op != token.EQL || !isConstIntV('\r')(y) {
+				continue
+			}
+			if u, ok := x.(*ssa.UnOp); ok {
+				if ia, ok := u.X.(*ssa.IndexAddr); ok {
+					if bc, _ := callOf(ia.X); bc != nil && calleeID(&bc.Call) == "(*bytes.Buffer).Bytes" {
+						onAcc = true
+					}
+				}
+			}
+		}
+		junk := false
+		for _, fc := range fs {
+			if fc.Pol && isVar("mayHasJunk")(fc.V) {
+				junk = true
+			}
+		}
+		c.check(onAcc && junk, "readLine/continue-after-newline", c.pos(p.Instrs[len(p.Instrs)-1].Pos()), "after a newline the reader keeps reading only when the accumulated line ends in CR (junk-tolerant mode)",
+			"the wrapped-line decision is not taken on the accumulated line's last byte: a CR|LF split across two reads ends the line early (or a strict line is continued)")
+	}
+	c.check(nBack >= 1, "readLine/has-wrapped-line-continuation", c.pos(rl.Pos()), "junk-tolerant mode can continue after a newline", "the reader never continues after a newline: wrapped lines are cut")
 }
